@@ -33,6 +33,9 @@ def fp_replay(name, v):
         s = cls.to_xml(v)
     except (TypeError, ValueError):
         return True
+    except Exception as e:  # noqa: any other exception type is what the property forbids
+        LAST_DETAIL = "%s.to_xml(%r) raised %s" % (name, v, type(e).__name__)
+        return False
     n = int(s)
     if not (lo <= n <= hi):
         LAST_DETAIL = "%s.to_xml(%r) = %r outside XSD range %s..%s" % (name, v, s, lo, hi)
@@ -95,9 +98,11 @@ def _validate_translator(name, cls):
     lits += [rnd.uniform(-1440, 1440) for _ in range(120)] + [rnd.uniform(0, 1) for _ in range(40)] + [rnd.uniform(0, 132) for _ in range(40)]
     bad = []
     n = 0
-    for x in lits:
-        if abs(x) > RANGE.get(name, DEFAULT_RANGE):
+    for x in lits + [float("inf"), float("-inf"), float("nan")]:
+        if abs(x) > RANGE.get(name, DEFAULT_RANGE) and x == x and abs(x) != float("inf"):
             continue
+        if name in CYCLIC and name != "ST_Angle" and (x != x or abs(x) == float("inf")):
+            continue  # float % 360 of a non-finite value is outside the translator's case split
         T = _translator(name)
         got = _concrete(T, cls, "to_xml", V("fp", fpval(x)))
         try:
@@ -205,6 +210,28 @@ def _obligation(name):
                 if r2 != "sat":
                     return dict(status="unknown", message="cvc5 says sat, z3 gives %s: solvers disagree or time-out" % r2, queries=queries)
                 return violated("read(write(v)) differs from v by more than the quantum %r" % q, m, s.to_smt2())
+    # non-finite inputs (NaN, +-inf): where the translated paths cover them, a rejection must be TypeError/ValueError too
+    nonfinite = z3.Or(z3.fpIsNaN(v), z3.fpIsInf(v))
+    queries += 1
+    r, m, dt, s = check([nonfinite, z3.Not(z3.Or([o.cond for o in outs]))], 120000)
+    solver_s += dt
+    nonfinite_covered = r == "unsat"
+    if nonfinite_covered:
+        for o in outs:
+            if o.kind == "raise" and o.exc not in ("TypeError", "ValueError"):
+                queries += 1
+                r, m, dt, s = check([nonfinite, o.cond], 120000)
+                solver_s += dt
+                if r == "sat":
+                    return violated("non-finite input rejected with %s, not TypeError/ValueError" % o.exc, m, s.to_smt2())
+                if r == "unknown":
+                    return dict(status="unknown", message="non-finite raise-path query unknown", queries=queries)
+            elif o.kind == "return":
+                queries += 1
+                r, m, dt, s = check([nonfinite, o.cond], 120000)
+                solver_s += dt
+                if r == "sat":
+                    return violated("non-finite input accepted and written", m, s.to_smt2())
     # vacuity: some value is accepted
     acc = [o for o in outs if o.kind == "return"]
     queries += 1
@@ -214,6 +241,7 @@ def _obligation(name):
         return dict(status="unknown", message="vacuity check: no accepted value found (%s)" % r, queries=queries)
     return dict(status="holds", queries=queries, solver_s=round(solver_s, 3), samples=samples,
                 detail=dict(functions=T.encoded, literals_validated=nlit, input_range="finite binary64, |v| <= %g" % R,
+                            nonfinite_inputs="covered: rejected with TypeError/ValueError" if nonfinite_covered else "not covered by the translated paths (outside the claim)",
                             xsd_range=[lo, hi], quantum=q))
 
 
